@@ -28,7 +28,7 @@ RULE = ("one run = one JSON value (a well-formed request of one of the 10 comman
         "else rejected(code); compared with the three-valued reference; non-trivial = the reference gave "
         "a definite verdict (accept / reject); distinct = tuple (mode, command, mutation kinds, reference "
         "verdict, manager state)")
-TIERS = {"quick": {"runs": 40000, "wall": 120}, "thorough": {"runs": 1500000, "wall": 1500}}
+TIERS = {"quick": {"runs": 300000, "wall": 240}, "thorough": {"runs": 3000000, "wall": 3000}}
 COMPONENTS = {
     "real": ["comm.server._RequestHandler (json parsing)", "comm.protocol", "comm.protocol_v1",
              "comm.utils", "comm.bip32", "ledger.protocol", "ledger.protocol_v1", "ledger.hsm2dongle",
@@ -126,7 +126,8 @@ SPECIAL = {
     "command": ["foo", "", "Version", "SIGN", "getpubkey", 5, None, ["sign"], {"a": 1}, True],
     "input": [-1, 2 ** 32, 2 ** 32 - 1, 1.0, True, "0", None, 2 ** 70],
     "outpointValue": [0, -1, 2 ** 64, 2 ** 64 - 1, 1, 1.0, True, "1", None],
-    "sighashComputationMode": ["Legacy", "SEGWIT", "", "taproot", 0, None],
+    "sighashComputationMode": ["Legacy", "SEGWIT", "", "taproot", 0, None, "legacy ", " segwit",
+                               "LEGACY", "Segwit", "legacy\u0000"],
     "hash": ["00" * 31, "00" * 33, "zz" * 32, "0x" + "00" * 31, "", 5, None, ("00 " * 32).strip()],
     "udValue": ["00" * 15, "00" * 17, "00" * 16, "00" * 32, "gg" * 16, "", 7, None],
     "tx": ["", "aabbcc", "zz", 5, None, "0100000001" + "00" * 36 + "00" + "ffffffff" + "00" + "00000000"],
